@@ -33,6 +33,7 @@ type genOpts struct {
 	End         string
 	Checkpoints bool
 	OwnSlots    bool // each thread owns its intervals (no cross-thread overwrite ambiguity)
+	Destroy     bool // inline mode: one Destroy of a fixed bucket in mid-history (the bucket is written again later)
 }
 
 func genHistory(r *gen.R, o genOpts) *hist.History {
@@ -105,6 +106,10 @@ func genHistory(r *gen.R, o genOpts) *hist.History {
 				st.Buckets = append(st.Buckets, bw)
 			}
 			h.Threads[t] = append(h.Threads[t], st)
+			if o.Destroy && !o.Background && i == nw/2 {
+				id++
+				h.Threads[t] = append(h.Threads[t], hist.Step{Op: "destroy", ID: id, Buckets: []hist.BucketWrite{{Key: fixedKeys[r.Intn(len(fixedKeys))]}}})
+			}
 			if o.Checkpoints && !o.Background && r.P(1, 4) {
 				h.Threads[t] = append(h.Threads[t], hist.Step{Op: "checkpoint"})
 			}
